@@ -3,6 +3,7 @@ package checks
 import (
 	"fmt"
 	"math"
+	"strings"
 	"time"
 
 	"github.com/nats-io/nats.go"
@@ -25,6 +26,7 @@ type gdriver struct {
 	Made []string
 	// Finite keeps generated values finite (the HTTP API cannot JSON-encode +-Inf)
 	Finite bool
+	twins  map[string]bool
 }
 
 func newGdriver(r *vlib.R, nc *nats.Conn, root, tag string) *gdriver {
@@ -131,6 +133,16 @@ func (d *gdriver) newEdge(typ string) data.Points {
 // points before the first edge.
 func (d *gdriver) create(parent, typ string, pointsFirst bool) (string, error) {
 	id := d.newID()
+	if len(d.Made) > 0 && d.r.Chance(0.06) {
+		// an id that differs from an existing one only in the case of its letters: another node altogether
+		if twin := strings.ToUpper(d.Made[d.r.Intn(len(d.Made))]); !d.twins[twin] && twin != strings.ToLower(twin) {
+			if d.twins == nil {
+				d.twins = map[string]bool{}
+			}
+			d.twins[twin] = true
+			id = twin
+		}
+	}
 	edge := d.newEdge(typ)
 	if pointsFirst {
 		if e, err := d.sendNode(id, d.somePoints(1+d.r.Intn(3))); err != nil || e != "" {
